@@ -120,6 +120,7 @@ type mLease struct {
 	lastSent   int  // version of the last manifest announced (0 = none)
 	closedAt   int  // scheduler step at which EventLeaseClosed was delivered (0 = not closed)
 	closedWith bool // a manager existed when the close was delivered
+	lateSent   int  // manifests announced after the lease had closed
 	deployFail bool // some deploy of this lease returned an error
 	managed    bool // the harness believes a manager exists
 }
@@ -312,6 +313,30 @@ func (x *c14) step() *core.Violation {
 	}
 	for _, l := range x.leases {
 		l := l
+		if l.closedAt != 0 {
+			// the chain and the tenant do not coordinate with the provider: a late manifest or a repeated
+			// lease-closed signal for a lease that is already being torn down must change nothing
+			st = append(st, stim{2, func() {
+				l.lateSent++
+				m, _ := x.manifestFor(l, 100+l.lateSent)
+				if in := x.inflight(l); in != "" {
+					r.Count("probe:manifest-after-close-during-" + in)
+				}
+				x.publish(event.ManifestReceived{LeaseID: l.id, Manifest: m, Group: &l.group, Deployment: &dtypes.QueryDeploymentResponse{}})
+				r.Ops++
+				r.Logf("step %d: ManifestReceived %s (late, after lease closed)", x.s.Step, l.key)
+				r.Abstract("latemanifest")
+			}})
+			st = append(st, stim{1, func() {
+				if in := x.inflight(l); in != "" {
+					r.Count("probe:second-close-during-" + in)
+				}
+				x.publish(mtypes.NewEventLeaseClosed(l.id, sdk.NewInt64Coin("uakt", 10)))
+				r.Ops++
+				r.Logf("step %d: EventLeaseClosed %s (repeated)", x.s.Step, l.key)
+				r.Abstract("secondclose")
+			}})
+		}
 		if l.closedAt == 0 {
 			st = append(st, stim{8, func() {
 				l.lastSent++
